@@ -220,6 +220,11 @@ type prevRef struct {
 // genTx draws a transaction with nin inputs and nout outputs. spend, when not nil, is used as the first
 // input's previous outpoint (to chain transactions).
 func genTx(r *mon.Rand, nin, nout int, pool *[][]byte, spend *prevRef) *gTx {
+	return genTxWith(r, nin, nout, pool, spend, genOutputScript)
+}
+
+// genTxWith is genTx with a chosen output-script generator.
+func genTxWith(r *mon.Rand, nin, nout int, pool *[][]byte, spend *prevRef, outGen func(*mon.Rand, *[][]byte) gScript) *gTx {
 	g := &gTx{view: &reffilter.TxView{}}
 	version := uint32(1 + r.Intn(2))
 	lock := uint32(0)
@@ -247,7 +252,7 @@ func genTx(r *mon.Rand, nin, nout int, pool *[][]byte, spend *prevRef) *gTx {
 		seqs = append(seqs, 0xffffffff-uint32(r.Intn(3)))
 	}
 	for i := 0; i < nout; i++ {
-		s := genOutputScript(r, pool)
+		s := outGen(r, pool)
 		g.outs = append(g.outs, s)
 		g.emptyPush = g.emptyPush || s.emptyPush
 		g.view.Outputs = append(g.view.Outputs, s.script)
@@ -267,5 +272,106 @@ func genTx(r *mon.Rand, nin, nout int, pool *[][]byte, spend *prevRef) *gTx {
 	}
 	tx.LockTime = lock
 	g.msg = tx
+	return g
+}
+
+var hostileKinds = []string{"trunc-direct", "trunc-pushdata1", "trunc-pushdata2", "trunc-pushdata4", "lone-pushdata", "valid-then-trunc",
+	"len>10000", "len=10000", "len=9999", "single-byte", "second-byte-opreturn", "opreturn-odd", "opreturn-long", "garbage"}
+
+// genHostileScript draws scripts that no standardness notion likes but that BIP158 treats like any other byte string:
+// scripts that do not parse (truncated pushes), oversized scripts, one-byte scripts of every opcode, scripts whose second
+// byte is OP_RETURN, and OP_RETURN scripts with odd payloads. Only the first byte (0x6a) and emptiness matter to BIP158.
+func genHostileScript(r *mon.Rand) gScript {
+	kind := hostileKinds[r.Intn(len(hostileKinds))]
+	g := gScript{kind: "hostile:" + kind}
+	filler := func(n int) []byte {
+		// non-push opcodes only, so that the bulk parses
+		b := make([]byte, n)
+		ops := []byte{0x61, 0x75, 0x76, 0x51, 0x52, 0x87, 0xac, 0xb1}
+		for i := range b {
+			b[i] = ops[r.Intn(len(ops))]
+		}
+		return b
+	}
+	switch kind {
+	case "trunc-direct":
+		n := 1 + r.Intn(75)
+		g.script = append([]byte{byte(n)}, r.Bytes(r.Intn(n))...)
+		if r.Chance(1, 4) {
+			g.script = []byte{0x05, 0x01}
+		}
+	case "trunc-pushdata1":
+		n := 1 + r.Intn(255)
+		g.script = append([]byte{0x4c, byte(n)}, r.Bytes(r.Intn(n))...)
+		if r.Chance(1, 4) {
+			g.script = []byte{0x51, 0x4c}
+		}
+	case "trunc-pushdata2":
+		switch r.Intn(3) {
+		case 0:
+			g.script = []byte{0x4d, byte(r.Intn(256))}
+		default:
+			n := 1 + r.Intn(600)
+			g.script = append([]byte{0x4d, byte(n), byte(n >> 8)}, r.Bytes(r.Intn(n))...)
+		}
+	case "trunc-pushdata4":
+		switch r.Intn(3) {
+		case 0:
+			g.script = append([]byte{0x4e}, r.Bytes(1+r.Intn(3))...)
+		case 1:
+			g.script = append([]byte{0x4e, 0xff, 0xff, 0xff, 0xff}, r.Bytes(r.Intn(40))...)
+		default:
+			n := 1 + r.Intn(300)
+			g.script = append([]byte{0x4e, byte(n), byte(n >> 8), 0, 0}, r.Bytes(r.Intn(n))...)
+		}
+	case "lone-pushdata":
+		g.script = []byte{[]byte{0x4c, 0x4d, 0x4e}[r.Intn(3)]}
+	case "valid-then-trunc":
+		g.script = append(append([]byte{0x76, 0xa9, 0x14}, r.Bytes(20)...), 0x88, 0xac)
+		g.script = append(g.script, [][]byte{{0x4c}, {0x4d, 0x01}, {0x4e}, {0x20, 0x01, 0x02}, {0x4b}}[r.Intn(5)]...)
+	case "len>10000":
+		g.script = filler(10001 + r.Intn(2000))
+		if r.Chance(1, 3) {
+			// a big well-formed push inside
+			g.script = append([]byte{0x4d, 0x10, 0x27}, r.Bytes(10000)...)
+			g.script = append(g.script, 0x75, 0x51)
+		}
+	case "len=10000":
+		g.script = filler(10000)
+	case "len=9999":
+		g.script = filler(9999)
+	case "single-byte":
+		g.script = []byte{byte(r.Intn(256))}
+		switch r.Intn(6) {
+		case 0:
+			g.script[0] = 0x6a
+		case 1:
+			g.script[0] = 0x00
+		case 2:
+			g.script[0] = 0xff
+		}
+	case "second-byte-opreturn":
+		first := []byte{0x00, 0x01, 0x51, 0x61, 0x4c, 0x75, 0xff, 0x6b}[r.Intn(8)]
+		g.script = append([]byte{first, 0x6a}, r.Bytes(r.Intn(30))...)
+	case "opreturn-odd":
+		switch r.Intn(6) {
+		case 0:
+			g.script = []byte{0x6a, 0x4c}
+		case 1:
+			g.script = append([]byte{0x6a, 0x20}, r.Bytes(r.Intn(32))...) // truncated push after OP_RETURN
+		case 2:
+			g.script = []byte{0x6a, 0x6a}
+		case 3:
+			g.script = append([]byte{0x6a}, filler(1+r.Intn(50))...)
+		case 4:
+			g.script = append([]byte{0x6a, 0x4d, 0xff, 0xff}, r.Bytes(r.Intn(20))...)
+		default:
+			g.script = append([]byte{0x6a}, r.Bytes(1+r.Intn(90))...)
+		}
+	case "opreturn-long":
+		g.script = append([]byte{0x6a}, filler(10000+r.Intn(1500))...)
+	default:
+		g.script = r.Bytes(1 + r.Intn(120))
+	}
 	return g
 }
